@@ -115,6 +115,7 @@ class Gen:
 
     keyword_operators = 0.04
     negative_indices = 0.15
+    runtime_keys = 0.0  # (switched on by the checks that judge values / totality, not by the shape check C14)
 
     def op(self, name, seq, *args):
         kws = []
@@ -333,6 +334,16 @@ class Gen:
     def with_lookalike_keys(self, dnode):
         """now and then a decoy entry is put in front of a key: a DIFFERENT string that unicode normalisation (NFKC, what python
         applies to identifiers) maps to the same text, e.g. fullwidth 'a' - python's dict keeps them apart"""
+        if self.runtime_keys and self.r.random() < self.runtime_keys:
+            # ... or a key that is only known when the query runs, written AFTER a field and equal to it on this data: python
+            # keeps the later value, whatever a rewrite thinks it can read off the display
+            i = self.r.randrange(len(dnode.keys))
+            k = dnode.keys[i].value
+            self.feat.add("run-time-dict-key")
+            key = ast.IfExp(test=ast.Compare(left=C(1), ops=[ast.Lt()], comparators=[C(2)]), body=C(k), orelse=C("zz_"))
+            dnode.keys.insert(i + 1, key)
+            dnode.values.insert(i + 1, C(-998))
+            return dnode
         if self.r.random() >= 0.12:
             return dnode
         i = self.r.randrange(len(dnode.keys))
